@@ -157,7 +157,8 @@ class SetExecute(object):
         w.singleton = inp['singleton']
         w.numprocesses = 1
         w._options = {}
-        w.do_action = lambda num: None
+        if not inp['busy']:
+            w.do_action = lambda num: None      # idle: the follow-up action itself is not what is replayed
         if inp['busy']:
             a._exclusive_running_command = 'other_operation'
         before = opt_snapshot(w)
